@@ -22,7 +22,14 @@ import (
 	"time"
 )
 
-const repo = "/repo"
+// repo is the tree the checks are built from. VF_REPO overrides it for the maintenance scripts only (sweeping
+// seeded changes over a scratch clone in parallel); the registered commands never set it.
+var repo = func() string {
+	if p := os.Getenv("VF_REPO"); p != "" {
+		return p
+	}
+	return "/repo"
+}()
 
 var verifDir = "/verif"
 
